@@ -253,6 +253,12 @@ def compatible_at(table, cs, ss, cred, v):
             verdicts.append((True, "ok"))
         else:
             # DHE: RFC 7919
+            if not cs["dhGroups"] and ss.get("dhParamsBits"):
+                # the client names no RFC 7919 group: the server uses its own parameters
+                bits = ss["dhParamsBits"]
+                verdicts.append((True, "ok") if cs["minKeySize"] <= bits <= cs["maxKeySize"]
+                                else (False, "dh-group-size-outside-client-limits"))
+                continue
             if not cs["dhGroups"] or not ss["dhGroups"]:
                 verdicts.append((None, "dhe-without-named-groups"))
                 continue
@@ -300,6 +306,16 @@ def compatible(table, cs, ss, cred):
 # pair generation
 # ---------------------------------------------------------------------------------------------
 def settings_dict(s):
+    d = _settings_dict(s)
+    if s.dhParams:
+        from tlslite.utils.cryptomath import numBits
+        d["dhParamsBits"] = numBits(s.dhParams[1])
+    else:
+        d["dhParamsBits"] = None
+    return d
+
+
+def _settings_dict(s):
     return {k: copy.deepcopy(v) for k, v in s.__dict__.items()
             if k in ("minVersion", "maxVersion", "versions", "cipherNames", "macNames", "keyExchangeNames",
                      "eccCurves", "dhGroups", "keyShares", "rsaSigHashes", "rsaSchemes", "dsaSigHashes",
@@ -506,7 +522,7 @@ def gen_pair(rng, focus=None):
 # ---------------------------------------------------------------------------------------------
 # running one pair
 # ---------------------------------------------------------------------------------------------
-def run_pair(cspec, sspec, cred, alpn=None):
+def run_pair(cspec, sspec, cred, alpn=None, server_dh_bits=None):
     """returns dict: outcome 'complete' | 'fail' | 'invalid:<side>', details"""
     from harness import lab
     try:
@@ -514,7 +530,12 @@ def run_pair(cspec, sspec, cred, alpn=None):
     except ValueError as e:
         return {"outcome": "invalid:client", "why": str(e)[:120]}
     try:
-        sset = mk_settings(sspec).validate()
+        sraw = mk_settings(sspec)
+        if server_dh_bits:
+            from tlslite.mathtls import goodGroupParameters
+            from tlslite.utils.cryptomath import numBits
+            sraw.dhParams = [gp for gp in goodGroupParameters[:7] if numBits(gp[1]) == server_dh_bits][0]
+        sset = sraw.validate()
     except ValueError as e:
         return {"outcome": "invalid:server", "why": str(e)[:120]}
     ckw, skw = {}, {}
@@ -760,7 +781,9 @@ def run_psk_pair(spec):
             cset.pskConfigs = cl
             sset.pskConfigs = [_psk_tuple(d) for d in spec.get("server_decoys", [])] + [shared]
         else:
-            sset.ticketKeys = [bytearray(range(32))]
+            tc = spec.get("ticket_cipher", "aes256gcm")
+            sset.ticketCipher = tc
+            sset.ticketKeys = [bytearray(range(16 if tc.startswith("aes128") else 32))]
             sset.ticket_count = spec.get("ticket_count", 1)
         cset = cset.validate()
         sset = sset.validate()
@@ -896,4 +919,6 @@ def psk_pairs(rng, n_random):
             c2 = dict(c1, keyShares=list(shares))
             s = base(slo, V34, eccCurves=list(secc), dhGroups=list(sdh), keyShares=(secc + sdh)[:1])
             yield ("psk:ticket:" + label, {"kind": "ticket", "client": c1, "client2": c2, "server": s, "cred": cred,
-                                           "ticket_count": rng.choice([1, 2, 3])})
+                                           "ticket_count": rng.choice([1, 2, 3]),
+                                           "ticket_cipher": rng.choice(["aes256gcm", "aes128gcm", "chacha20-poly1305", "aes128ccm",
+                                                                        "aes128ccm_8", "aes256ccm", "aes256ccm_8"])})
